@@ -323,6 +323,18 @@ R("publish_value_mapper", 1, lambda c: {"v": vt.gen_value(c.rng, 0.5), "f": c.fn
 R("multicast_subject_ref_count", 1, lambda c: {}, lambda w, n, a, i: i[0].pipe(ops.multicast(rx.subject.Subject()), ops.ref_count()), {"multicast", "explicit_subject"})
 R("to_marbles", 1, lambda c: {"d": c.rng.choice([10, 20, 50])}, lambda w, n, a, i: i[0].pipe(ops.map(lambda x: vt.h(x) % 10), ops.to_marbles(a["d"], w.s)), {"time"})
 
+# library source factories spliced into the pipeline (fromiterable.py, range.py, generate.py, timer.py, interval.py ...)
+R("concat_lib_range", 1, lambda c: {"n": c.rng.randrange(0, 5)}, lambda w, n, a, i: rx.concat(i[0], rx.range(0, a["n"])), ())
+R("concat_lib_from_iterable", 1, lambda c: {"v": [vt.gen_value(c.rng, 0.5) for _ in range(c.rng.randrange(0, 4))]},
+  lambda w, n, a, i: rx.concat(rx.from_iterable([V(x) for x in a["v"]]), i[0]), ())
+R("merge_lib_interval", 1, lambda c: {"d": pdur(c), "n": c.rng.randrange(1, 5)}, lambda w, n, a, i: rx.merge(i[0], rx.interval(float(a["d"])).pipe(ops.take(a["n"]))), {"time"})
+R("merge_lib_timer", 1, lambda c: {"d": dur(c)}, lambda w, n, a, i: rx.merge(i[0], rx.timer(float(a["d"]))), {"time"})
+R("concat_lib_generate", 1, lambda c: {"n": c.rng.randrange(0, 5)}, lambda w, n, a, i: rx.concat(i[0], rx.generate(0, lambda s: s < a["n"], lambda s: s + 1)), ())
+R("concat_lib_repeat_value", 1, lambda c: {"n": c.rng.randrange(0, 4), "v": vt.gen_value(c.rng, 0.5)}, lambda w, n, a, i: rx.concat(rx.repeat_value(V(a["v"]), a["n"]), i[0]), ())
+R("zip_lib_range", 1, lambda c: {"n": c.rng.randrange(0, 5)}, lambda w, n, a, i: rx.zip(i[0], rx.range(0, a["n"])), ())
+R("concat_lib_generate_rel", 1, lambda c: {"n": c.rng.randrange(0, 4), "d": dur(c)},
+  lambda w, n, a, i: rx.concat(i[0], rx.generate_with_relative_time(0, lambda s: s < a["n"], lambda s: s + 1, lambda s: float(a["d"]))), {"time"})
+
 # scheduler hopping / resources
 R("observe_on", 1, lambda c: {}, lambda w, n, a, i: i[0].pipe(ops.observe_on(w.s)), {"time"})
 R("subscribe_on", 1, lambda c: {}, lambda w, n, a, i: i[0].pipe(ops.subscribe_on(w.s)), {"time"})
